@@ -94,7 +94,7 @@ fire("C13", B, "            targets_set.add(processed_arg.target)\n", "         
 fire("C04", A, "*((n, _ParameterKind.KEYWORD_ONLY) for n in args.keyword_only),", "*((n, _ParameterKind.POSITIONAL_OR_KEYWORD) for n in args.keyword_only),")
 fire("C04", A, "argcount=len(args.positional_only) + len(args.positional_or_keyword),", "argcount=len(args.positional_or_keyword),")
 fire("C04", C, "constants[0] if constants and isinstance(constants[0], str) else None", "constants[0] if constants else None")
-fire("C04", I, "        return len(self.parameters)", "        return len(self.positional_only) + len(self.positional_or_keyword)")
+fire("C04", I, "            + (self.var_positional is not None)\n", "", "len(args) forgets *args (R04.7)")
 fire("C04", A, "        *args.keyword_only,\n        *((args.var_positional,) if args.var_positional is not None else ()),", "        *((args.var_positional,) if args.var_positional is not None else ()),\n        *args.keyword_only,", "the original defect, encode side")
 # ---- C07
 fire("C07", J, '        if isinf(value):\n            return {"float": "inf" if value > 0 else "-inf"}\n', "")
@@ -153,10 +153,10 @@ fire("C01", B, "            instruction = replace(\n                instruction,
      "            instruction = Instruction(\n                name=instruction.name,\n                arg=Jump(targets.index(instruction.arg.target), instruction.arg.relative),\n                _n_args_override=instruction._n_args_override,\n                line_number=instruction.line_number,\n            )", "partial rebuild (R01.8)")
 silent(["C01", "C02", "C13"], B, "            instruction = replace(\n                instruction,\n                arg=replace(\n                    instruction.arg,\n                    target=targets.index(instruction.arg.target),\n                ),\n            )",
        "            instruction = Instruction(\n                name=instruction.name,\n                arg=Jump(targets.index(instruction.arg.target), instruction.arg.relative),\n                _n_args_override=instruction._n_args_override,\n                line_number=instruction.line_number,\n                _line_offsets_override=instruction._line_offsets_override,\n            )", "complete rebuild")
-fire("C09", B, "    found_varnames = ToArgs(varnames, {i: i for i in range(len(args.parameters))})",
+fire("C09", B, "    found_varnames = ToArgs(varnames, {i: i for i in range(len(args))})",
      "    n_seed = len(args.positional_only) + len(args.positional_or_keyword) + len(args.keyword_only)\n    found_varnames = ToArgs(varnames, {i: i for i in range(n_seed)})", "seed count without *args / **kwargs")
-silent(["C09", "C01"], B, "    found_varnames = ToArgs(varnames, {i: i for i in range(len(args.parameters))})",
-       "    n_seed = (\n        len(args.positional_only)\n        + len(args.positional_or_keyword)\n        + len(args.keyword_only)\n        + (1 if args.var_positional else 0)\n        + (1 if args.var_keyword is not None else 0)\n    )\n    found_varnames = ToArgs(varnames, {i: i for i in range(n_seed)})", "the same count spelled as a sum")
+silent(["C09", "C01"], B, "    found_varnames = ToArgs(varnames, {i: i for i in range(len(args))})",
+       "    n_seed = (\n        len(args.positional_only)\n        + len(args.positional_or_keyword)\n        + len(args.keyword_only)\n        + (1 if args.var_positional is not None else 0)\n        + (1 if args.var_keyword is not None else 0)\n    )\n    found_varnames = ToArgs(varnames, {i: i for i in range(n_seed)})", "the same count spelled as a sum")
 M.append(dict(kind="fire", pid="C02", file=B, old="        arg |= b[i + 1]\n", new="        arg = b[i + 1] | ext\n",
               more=[("    arg: int = 0\n    for i in range(0, len(b), 2):", "    ext: int = 0\n    for i in range(0, len(b), 2):"), ("            arg = arg << 8\n", "            ext = b[i + 1] << 8\n"),
                     ("            if arg > _c_int_upper_limit:\n                arg -= _c_int_length\n", "            if ext > _c_int_upper_limit:\n                ext -= _c_int_length\n"),
@@ -248,13 +248,13 @@ M.append(dict(kind="fire", pid="C03", file=B, old="    _hash_fn: Callable[[T], H
 fire("C03", L, "        # Stays none if there is no bytecode\n        bytecode_offset = None\n", "", "the original defect: loop variable read after an empty loop (R03.U)")
 # ---- rules added after the round-5 seeded changes
 H = "code_data/dataclass_hide_default.py"
-fire("C02", B, "        arg |= b[i + 1]\n        n_args += 1\n        if opcode == dis.EXTENDED_ARG:\n            arg = arg << 8\n",
-     "        n_args += 1\n        if opcode == dis.EXTENDED_ARG:\n            arg |= b[i + 1] << 8\n", "prefix byte not shifted above earlier ones (R02.8)")
-M.append(dict(kind="fire", pid="C02", file=B, old="        arg |= b[i + 1]\n        n_args += 1\n        if opcode == dis.EXTENDED_ARG:\n            arg = arg << 8\n",
-              new="        n_args += 1\n        if opcode == dis.EXTENDED_ARG:\n            arg |= b[i + 1] << 8\n",
-              more=[("            first_offset = i - ((n_args - 1) * 2)\n", "            arg |= b[i + 1]\n            first_offset = i - ((n_args - 1) * 2)\n")], why="one-prefix case right, two prefixes wrong (R02.8)"))
-silent(["C02", "C09", "C13", "C03"], B, "        arg |= b[i + 1]\n        n_args += 1\n        if opcode == dis.EXTENDED_ARG:\n            arg = arg << 8\n",
-       "        arg = arg | b[i + 1]\n        n_args += 1\n        if opcode == dis.EXTENDED_ARG:\n            arg = arg * 256\n", "same accumulation spelled with * 256")
+fire("C02", B, "            arg = arg << 8\n",
+     "            arg = b[i + 1] << 8\n", "only the last prefix is carried (R02.7 / R02.8)")
+M.append(dict(kind="fire", pid="C02", file=B, old="            arg = arg << 8\n",
+              new="            arg = (arg & 0xFF) << 8\n",
+              why="one-prefix case right, two prefixes wrong (R02.8)"))
+M.append(dict(kind="silent", pid=["C02", "C09", "C13", "C03"], file=B, old="        arg |= b[i + 1]\n        n_args += 1\n", new="        arg = arg | b[i + 1]\n        n_args += 1\n",
+              more=[("            arg = arg << 8\n", "            arg = arg * 256\n")], why="same accumulation spelled with * 256"))
 fire("C02", "code_data/_constants.py", "    if isinstance(value, (str, type(None), type(...))):", "    if isinstance(value, (str, type(None))):", "Ellipsis constants have no key: from_code raises (R02.K)")
 silent(["C02", "C08"], "code_data/_constants.py", "    if isinstance(value, (bool, int, bytes)):\n        return (type(value), value)", "    tp = type(value)\n    if tp in (bool, int, bytes):\n        return (tp, value)", "exact-type dispatch, same key")
 fire("C08", I, "        if not isinstance(__o, Constant):\n            return False\n", "        if not isinstance(__o, Constant):\n            return False\n        if self.constant is __o.constant:\n            return True\n", "shortcut skips the override (R08.2)")
@@ -333,3 +333,10 @@ fire("C16", CLI, "        json_data = code_data.to_json_data()", "        json_d
 fire("C16", CLI, '        code = compile(source, "<string>", "exec")  # type: ignore', '        code = compile(source, "<string>", "single")  # type: ignore', "-c compiled in another mode (R16.F)")
 fire("C14", "code_data/_constants.py", "    if isinstance(value, CodeType):\n        return CodeData.from_code(value)\n    return value", "    if isinstance(value, CodeType):\n        return CodeData.from_code(value)\n    if isinstance(value, tuple):\n        return tuple(map(to_constant, value))\n    return value", "code objects decoded inside tuple constants, where __iter__ does not look (R14.6)")
 fire("C08", I, "class Jump(DataclassHideDefault):", "class Jump(DataclassHideDefault):\n    def __new__(cls, *args, **kwargs):\n        return super().__new__(cls)\n", "hand-written __new__ on a data class (R08.1)")
+
+# ---- third hunt
+fire("C11", B, "    if n_args:\n        raise NotImplementedError(\"EXTENDED_ARG without an instruction at the end\")\n", "", "the original defect: prefixes behind the last instruction dropped (R11.X)")
+fire("C11", B, "            if n_args > 3:\n", "            if n_args > 4:\n", "a fourth prefix accepted again (R11.X)")
+fire("C11", B, "        if index < 0:\n            raise NotImplementedError(f\"Negative index {index} into a table\")\n", "", "the original defect: a negative operand counted from the end (R11.X)")
+fire("C11", L, "    if USE_LINETABLE and from_line_mapping(mapping) != code.co_linetable:  # type: ignore\n", "    if False:\n", "the original defect: hand-altered 3.10 tables silently rewritten (R11.H2)")
+silent(["C11", "C09", "C02"], B, "        if index < 0:\n", "        if not index >= 0:\n", "same refusal, other spelling")
